@@ -149,14 +149,17 @@ pub fn write_progs(path: &str, progs: Vec<Value>) {
 /// of corpus/c17 (`<arch>_<name>.hex`): a second source of programs for the explorations.
 pub fn lifted(rng: &mut Rng, dir: &str) -> Vec<(XProg, String, String)> {
     use falcon::architecture::{AArch64, AArch64Eb, Amd64, Architecture, Mips, Mipsel, Ppc, X86};
-    let mut files: Vec<String> = match std::fs::read_dir(dir) {
-        Ok(rd) => rd.filter_map(|e| e.ok().map(|e| e.file_name().to_string_lossy().to_string()))
-            .filter(|n| n.ends_with(".hex")).collect(),
-        Err(_) => Vec::new(),
-    };
+    // `dir` may name several directories separated by commas
+    let mut files: Vec<(String, String)> = Vec::new();
+    for d in dir.split(',') {
+        if let Ok(rd) = std::fs::read_dir(d) {
+            files.extend(rd.filter_map(|e| e.ok().map(|e| e.file_name().to_string_lossy().to_string()))
+                .filter(|n| n.ends_with(".hex")).map(|n| (d.to_string(), n)));
+        }
+    }
     files.sort();
     let mut out = Vec::new();
-    for name in files {
+    for (dir, name) in files {
         let archname = name.split('_').next().unwrap().to_string();
         let a: Box<dyn Architecture> = match archname.as_str() {
             "x86" => Box::new(X86::new()),
